@@ -17,6 +17,9 @@ AbsMin(n, m) == LET am == IF m = MinInt THEN MaxInt ELSE Abs(m)
 AltRand(n, s) ==
   IF n = "CODE.RAND" /\ Has(s, "int", 1) /\ AbsMin(s.int[1], s.cfg.max_rand_points) = 1
   THEN <<FiredH(PushOn(PopN(s, "int", 1), "code", EmptyList), <<HoleAB(<<"code", 1>>, "randcode", 1, SetAsSeq(DOMAIN s.bind))>>)>>
+  \* FLOAT.RAND between bounds of which one is infinite: no uniform value exists; nothing is as good as a value inside
+  ELSE IF n = "FLOAT.RAND" /\ FLt(s.cfg.min_f, s.cfg.max_f) /\ (~FIsFinite(s.cfg.min_f) \/ ~FIsFinite(s.cfg.max_f))
+  THEN <<Unfired(s)>>
   ELSE <<>>
 
 ApplyRand(n, s) ==
